@@ -12,15 +12,17 @@
  *   make-ux     UX/UXF names of length 0,1,2,106,107,108,109 x all capacities
  *   (i)         every complete string produced by make is parsed back (round trip)
  *   short       (ii) every string of length <= L over the alphabet "tcp:[]*.-+019a " after each
- *               transport prefix and with no prefix (L: quick 5/4, thorough 6/5)
+ *               transport prefix and with no prefix (L = --ltcp for "tcp:", --lother for the rest;
+ *               C12.py: quick 6/5 plain + 5/4 sanitizer, thorough 7/6 plain + 6/5 sanitizer)
  *   ports/misc  (iii) structured families around every limit: port field over [-2,70000] and
  *               2^31-1..20 digits, empty/signed/leading-zero/junk ports, host lengths 0..513,
  *               total lengths 577..4096, proto lengths 0..600, every byte value 1..255 in every
  *               field, IPv4/IPv6 corner syntax, parse capacities
  *
- * Memory discipline: every parser input is a heap block of exactly strlen+1 bytes; every output
- * buffer ENDS exactly at the end of a heap block (ASan traps the first byte beyond `capacity`)
- * and the bytes in front of it carry a canary that is verified after the call.
+ * Memory discipline: every parser input is a heap block of exactly strlen+1 bytes; in the
+ * sanitizer build every output buffer ENDS exactly at the end of a heap block (ASan traps the
+ * first byte beyond `capacity`), in the plain build 64 canary bytes follow it; the bytes in front
+ * of it carry a canary too; canaries are verified after every call.
  *
  * What the oracle demands:
  *   make   rc 0 and the complete NUL-terminated address inside `capacity`, or rc -1 with
@@ -965,7 +967,14 @@ static void in_release(char *b, size_t n)
 #define CANARY 0xA5
 static char *out_blk;
 
-static size_t out_prev = OUT_BLK;       /* length of the tail that may differ from the canary */
+/* Sanitizer build: the buffer ends exactly at the end of the heap block (the first byte beyond
+ * `capacity` traps).  Plain build: OUT_REAR canary bytes follow the buffer and are verified. */
+#ifdef HAVE_ASAN
+#define OUT_REAR 0
+#else
+#define OUT_REAR 64
+#endif
+static size_t out_prev = OUT_BLK;       /* length of the region that may differ from the canary */
 
 static char *out_buf(size_t cap)
 {
@@ -973,18 +982,23 @@ static char *out_buf(size_t cap)
         out_blk = malloc(OUT_BLK);
         out_prev = OUT_BLK;
     }
-    memset(out_blk + OUT_BLK - out_prev, CANARY, out_prev);     /* whole block = canary again */
+    if (out_prev == OUT_BLK)
+        memset(out_blk, CANARY, OUT_BLK);
+    else
+        memset(out_blk + OUT_BLK - OUT_REAR - out_prev, CANARY, out_prev);  /* whole block = canary again */
     out_prev = cap;
-    return out_blk + OUT_BLK - cap;
+    return out_blk + OUT_BLK - OUT_REAR - cap;
 }
 
-/* true if a byte in front of the buffer was modified */
-static bool out_underflow(size_t cap)
+/* 1: a byte in front of the buffer was modified; 2: a byte behind it (plain build) */
+static int out_damage(size_t cap)
 {
     static char ref[OUT_BLK];
     if ((unsigned char)ref[0] != CANARY)
         memset(ref, CANARY, sizeof ref);
-    bool bad = memcmp(out_blk, ref, OUT_BLK - cap) != 0;
+    int bad = memcmp(out_blk, ref, OUT_BLK - OUT_REAR - cap) != 0 ? 1 : 0;
+    if (OUT_REAR && memcmp(out_blk + OUT_BLK - OUT_REAR, ref, OUT_REAR) != 0)
+        bad |= 2;
     if (bad)
         out_prev = OUT_BLK;
     return bad;
@@ -1018,7 +1032,7 @@ struct pres {                   /* what a parser returned */
     unsigned port;              /* host order */
     char ux[OUT_BLK + 1];       /* ux parsers / parse_proto */
     bool ux_term;
-    bool underflow;
+    bool underflow, overflow;
 };
 
 static void decode_ip(struct pres *p, const struct xcm_addr_ip *ip)
@@ -1044,7 +1058,7 @@ static void pres_reset(struct pres *p)
     p->port = 0;
     p->name[0] = 0;
     p->ux[0] = 0;
-    p->name_term = p->ux_term = p->underflow = false;
+    p->name_term = p->ux_term = p->underflow = p->overflow = false;
 }
 
 static void call_begin(const struct fdesc *f, const char *in, size_t n, bool dup)
@@ -1131,7 +1145,9 @@ static void call_str_parse(const struct fdesc *f, const char *in, size_t n, size
     else
         p->rc = f->u.ux_parse(in, o, cap);
     p->err = errno;
-    p->underflow = out_underflow(cap);
+    int dmg = out_damage(cap);
+    p->underflow = dmg & 1;
+    p->overflow = dmg & 2;
     p->ux_term = false;
     p->ux[0] = 0;
     if (p->rc != 0)
@@ -1301,6 +1317,9 @@ static void judge_typed(const struct fdesc *f, const char *s, size_t n, const st
     if (p->underflow)
         parse_finding("C12/parse-writes-outside/before-buffer", f, s, n, p,
                       "bytes in front of the output buffer were modified");
+    if (p->overflow)
+        parse_finding("C12/parse-writes-outside/after-buffer", f, s, n, p,
+                      "bytes behind the output buffer (beyond capacity) were modified");
     if (p->rc == -1) {
         if (m->v == V_ACCEPT) {
             char sig[160];
@@ -1399,6 +1418,9 @@ static void judge_proto(const char *s, size_t n, size_t cap, const struct pres *
     if (p->underflow)
         parse_finding("C12/parse-writes-outside/before-buffer", f, s, n, p,
                       "bytes in front of the output buffer were modified");
+    if (p->overflow)
+        parse_finding("C12/parse-writes-outside/after-buffer", f, s, n, p,
+                      "bytes behind the output buffer (beyond capacity) were modified");
     if (p->rc != 0 && p->rc != -1)
         parse_finding("C12/parse-bad-rc", f, s, n, p, "the return value is neither 0 nor -1");
     else if (p->rc == 0 && v == V_REJECT) {
@@ -1597,7 +1619,7 @@ static void string_case(const char *s, size_t n, bool dup, const struct origin *
 /* make: one (function, components) tuple swept over every capacity                       */
 /* ====================================================================================== */
 
-struct mres_make { int rc, err; bool term; size_t len; char s[OUT_BLK + 1]; bool underflow; };
+struct mres_make { int rc, err; bool term; size_t len; char s[OUT_BLK + 1]; bool underflow, overflow; };
 
 static void tb_one_make(struct tb *b, const struct fdesc *f, const struct mhost *h, const char *ux,
                         size_t ux_len, unsigned port, size_t cap)
@@ -1691,7 +1713,9 @@ static void call_make(const struct fdesc *f, const struct mhost *h, const char *
     }
     r->err = errno;
     cur.fn = NULL;
-    r->underflow = out_underflow(cap);
+    int dmg = out_damage(cap);
+    r->underflow = dmg & 1;
+    r->overflow = dmg & 2;
     const char *z = cap ? memchr(o, 0, cap) : NULL;
     r->term = z != NULL;
     r->len = z ? (size_t)(z - o) : cap;
@@ -1807,6 +1831,9 @@ static void make_tuple(const struct fdesc *f, const struct mhost *h, const char 
     if (ref.underflow)
         make_finding("make-writes-outside", "before-buffer", f, h, ux, ux_len, port, REF_CAP, &ref,
                      "bytes in front of the buffer were modified");
+    if (ref.overflow)
+        make_finding("make-writes-outside", "after-buffer", f, h, ux, ux_len, port, REF_CAP, &ref,
+                     "bytes behind the buffer (beyond capacity) were modified");
     if (ref_ok && h && h->kind == H_IP6 && (ref.len != canon.n || memcmp(ref.s, canon.p, canon.n) != 0)) {
         struct tb t = { 0 };
         tb_f(&t, "%s writes \"%s\" where RFC 5952 would write \"%s\" (same address; not a verdict)",
@@ -1853,6 +1880,9 @@ static void make_tuple(const struct fdesc *f, const struct mhost *h, const char 
         if (r.underflow)
             make_finding("make-writes-outside", "before-buffer", f, h, ux, ux_len, port, cap, &r,
                          "bytes in front of the buffer were modified");
+        if (r.overflow)
+            make_finding("make-writes-outside", "after-buffer", f, h, ux, ux_len, port, cap, &r,
+                         "bytes behind the buffer (beyond capacity) were modified");
         if (r.rc == 0) {
             if (!valid) {
                 make_finding("make-accepts", "ux-name=too-long", f, h, ux, ux_len, port, cap, &r,
